@@ -332,7 +332,12 @@ class OverrideMeta:
                     rk = dict(t.split("=", 1) for t in real[k].split(" ") if "=" in t)
                     if flag == "fo" and rk.get("run") != "0": ok = False
                     if flag == "dis" and (" radv=0 " not in ops[k] + " " or "panic" in rk.get("res", "")): ok = False
-                    ticks.append(0 if rk.get("rd", "-") == "-" else len(rk["rd"].split(",")))
+                    t = 0 if rk.get("rd", "-") == "-" else len(rk["rd"].split(","))
+                    # a fallback that was invoked during the episode moved the substitute clock by its own `fadv` as well
+                    if rk.get("fb", "0") != "0":
+                        m = re.search(r" fadv=(-?\d+)", ops[k])
+                        t += int(m.group(1)) if m else 0
+                    ticks.append(t)
                 if not ok: break
                 variant = ops[:i] + ["tick 0"] + ["tick %d" % t for t in ticks] + ["tick 0"] + ops[j + 1:]
                 out.append({"header": header, "ops": ops, "from": i, "to": j, "variant": variant, "real": real, "flag": flag})
